@@ -193,7 +193,7 @@ func (ex *Exec) apiIntrinsic(name string, fn *ssa.Function, args []Value, fr *Fr
 	case "verifConcretize":
 		// fork over the alternatives of a universe string (cheap way to share harness code)
 		return StrV{s: ex.concStr(args[0].(StrV), "verifConcretize")}, true
-	case "verifNewPipe", "verifPipeGarbage", "verifPipeFailReads", "verifEncodesUnlocked":
+	case "verifNewPipe", "verifPipeGarbage", "verifPipeFailReads", "verifEncodesUnlocked", "verifEncodeLockBegin", "verifEncodeLockCheck":
 		return ex.atpAPI(name, args, fr, pos)
 	case "verifLeakCheck":
 		ex.leakCheck = args[0].(*Term).cv != 0
